@@ -12,7 +12,7 @@ cp -r /repo/src /repo/test /repo/setup.cfg /repo/pyproject.toml "$scratch"/ 2>/d
 if [ "${VERIF_MUT_BASELINE:-0}" = "1" ]; then
   ( cd "$scratch" && PYTHONPATH="$scratch/src" /venv/bin/python -m pytest -q -p no:cacheprovider -n 16 --continue-on-collection-errors 2>&1 | tail -1 )
 fi
-cd /verif
+cd "$(dirname "$(readlink -f "$0")")/.."
 for id in "$@"; do
   TPMSTREAM_SRC="$scratch/src" VERIF_EVIDENCE_DIR="$scratch/evidence" /venv/bin/python -m tv.run "$id" --tier "${VERIF_TIER:-quick}" > "$scratch/out.$id" 2>&1
   code=$?
